@@ -142,7 +142,13 @@ impl C20Wire {
     fn run(&self, c: &ListingCase) -> Outcome {
         let mut out = Outcome::default();
         wipe_db();
-        let mut srv = match NetServer::start("erbium", &base_conf(""), "warn") {
+        // the unix socket may do everything; one TCP client may read the metrics and nothing else
+        // (what a monitoring host is given), another the listing and nothing else
+        let acls = format!(
+            "acls:\n  - match-unix: true\n    apply-access: [http-ro, dhcp-client]\n  - match-subnets: [\"{}/32\"]\n    apply-access: [http-metrics]\n  - match-subnets: [\"{}/32\"]\n    apply-access: [http-leases]\n  - match-subnets: [\"0.0.0.0/0\", \"::/0\"]\n    apply-access: [dhcp-client]\n",
+            CLI4[0], CLI4[1]
+        );
+        let mut srv = match NetServer::start("erbium", &base_conf(&acls), "warn") {
             Ok(s) => s,
             Err(e) => {
                 out.fail("rig-error", e);
@@ -325,6 +331,44 @@ impl C20Wire {
                 return out;
             }
         };
+        // ---- the first scrape of a client that may read the metrics and nothing else (nobody
+        // with more rights has scraped since the store last changed)
+        {
+            let now = crate::hist::wall_now() as i64;
+            if !rows.iter().any(|r| (r.expire as i64 - now).abs() <= 2) {
+                let act = rows.iter().filter(|r| r.expire as i64 > now).count() as i64;
+                let exp = rows.len() as i64 - act;
+                match http_tcp(IpAddr::V4(CLI4[0]), SocketAddr::new(IpAddr::V4(SRV4), 9968), "/metrics") {
+                    Ok(r) if r.status == 200 => {
+                        let text = String::from_utf8_lossy(&r.body).to_string();
+                        let get = |name: &str| -> Option<i64> {
+                            text.lines()
+                                .find(|l| l.starts_with(name) && !l.starts_with('#'))
+                                .and_then(|l| l.split_whitespace().nth(1))
+                                .and_then(|v| v.parse::<f64>().ok())
+                                .map(|v| v as i64)
+                        };
+                        out.class("scraped-by-a-metrics-only-client");
+                        let got = (get("dhcp_active_leases"), get("dhcp_expired_leases"));
+                        if got != (Some(act), Some(exp)) {
+                            out.fail(
+                                "C20:gauge-mismatch:metrics-only-client",
+                                format!("a client whose rule grants http-metrics only scrapes active={:?} expired={:?}; the database holds active={} expired={}", got.0, got.1, act, exp),
+                            );
+                            return out;
+                        }
+                    }
+                    Ok(r) => {
+                        out.fail("C20:gauges-unavailable", format!("metrics-only client: status {}", r.status));
+                        return out;
+                    }
+                    Err(e) => {
+                        out.fail("C20:gauges-unavailable", format!("metrics-only client: {}", e));
+                        return out;
+                    }
+                }
+            }
+        }
         // ---- gauges with both classes non-empty
         if c.age_every > 0 {
             if let Ok(conn) = rusqlite::Connection::open(LEASE_DB) {
@@ -513,6 +557,29 @@ impl WireProp for C08Http {
                                 format!("{} GET {}: status {}, first-match model (rule {:?}) says {}", desc, path, status, fm.as_ref().map(|x| x.0), want),
                             );
                             return out;
+                        }
+                        // whatever the request method: a page is never handed to a client whose
+                        // first matching rule lacks the permission for it
+                        if !granted {
+                            for method in ["HEAD", "POST", "PUT", "DELETE", "OPTIONS"] {
+                                let mp = format!("{} {}", method, path);
+                                let r = match sel {
+                                    0..=2 => http_tcp(IpAddr::V4(CLI4[*sel as usize]), SocketAddr::new(IpAddr::V4(SRV4), 9968), &mp),
+                                    3..=5 => http_tcp(IpAddr::V6(cli6(*sel as usize - 3)), SocketAddr::new(IpAddr::V6(srv6()), 9968), &mp),
+                                    6 => http_unix(CONTROL, Some("/var/lib/erbium/cli.sock"), &mp),
+                                    _ => http_unix(CONTROL, None, &mp),
+                                };
+                                out.class("non-get-request-to-a-refused-page");
+                                if let Ok(r) = r {
+                                    if r.status == 200 {
+                                        out.fail(
+                                            format!("C08:http-{}-served-but-model-refuses", what),
+                                            format!("{} {} {}: status 200, first-match model (rule {:?}) refuses {}", desc, method, path, fm.as_ref().map(|x| x.0), what),
+                                        );
+                                        return out;
+                                    }
+                                }
+                            }
                         }
                     }
                 }
@@ -1249,6 +1316,66 @@ pub fn run_c17_wire(ctx: &Ctx) {
                     ctx.violation(prop.sub(), &f, &case);
                     return;
                 }
+            }
+        }
+    }
+    // no router-advertisements section at all: the documented shortcut in which the prefixes
+    // come from the interface's own addresses covered by the top-level `addresses`
+    {
+        let mut out = Outcome::default();
+        out.nontrivial = true;
+        out.class("no-router-advertisements-section");
+        let case = serde_json::json!({"config": "addresses only (no router-advertisements section)"});
+        wipe_db();
+        match NetServer::start("erbium", &base_conf(""), "warn") {
+            Err(e) => out.fail("rig-error", e),
+            Ok(mut srv) => {
+                let _ = wait_http(&mut srv);
+                match prop.solicit() {
+                    None => out.fail("C17:no-advertisement", "no router advertisement in answer to a solicitation (addresses-only configuration)"),
+                    Some((hop, ck_ok, msg)) => {
+                        if hop != 255 || !ck_ok {
+                            out.fail("C17:wire:header", format!("hop limit {} checksum ok {}", hop, ck_ok));
+                        } else {
+                            match crate::rfc4861::decode_ra(&msg) {
+                                Err(e) => out.fail("C17:rfc-decoder-rejects", e),
+                                Ok(ra) => {
+                                    let want: Ipv6Addr = "fd55::".parse().unwrap();
+                                    let mut found = false;
+                                    for o in &ra.options {
+                                        if let crate::rfc4861::NdOpt::Prefix { len, prefix, flags_rest, reserved2, .. } = o {
+                                            let mask: u128 = if *len == 0 { 0 } else { u128::MAX << (128 - *len as u32) };
+                                            if u128::from(*prefix) & !mask != 0 {
+                                                out.fail(
+                                                    "C17:reserved:prefix-host-bits",
+                                                    format!("addresses-only configuration: advertised prefix {}/{} has bits set beyond its length", prefix, len),
+                                                );
+                                            }
+                                            if *flags_rest != 0 || *reserved2 != 0 {
+                                                out.fail("C17:reserved:prefix", "");
+                                            }
+                                            if *len == 64 && u128::from(*prefix) & mask == u128::from(want) {
+                                                found = true;
+                                            }
+                                        }
+                                    }
+                                    if out.fail.is_none() && !found {
+                                        out.fail("C17:option:prefix", format!("addresses-only configuration: fd55::/64 is not advertised ({:?})", ra.options));
+                                    }
+                                }
+                            }
+                        }
+                    }
+                }
+            }
+        }
+        ctx.record(prop.sub(), &case, &out);
+        if let Some(f) = out.fail {
+            if ctx.is_known(&f.sig) {
+                ctx.known_hit(&f.sig);
+            } else {
+                ctx.violation(prop.sub(), &f, &case);
+                return;
             }
         }
     }
